@@ -577,31 +577,42 @@ func runC11(c hx.Case) any {
 			bodies[c11Key(u)] = b
 		}
 	}
-	log := []string{}
-	loader := openapi3.NewLoader()
-	loader.IsExternalRefsAllowed = jbool(g, "allowed")
-	loader.ReadFromURIFunc = func(_ *openapi3.Loader, u *url.URL) ([]byte, error) {
-		k := c11Key(u)
-		log = append(log, k)
-		if b, ok := bodies[k]; ok {
-			return b, nil
+	// two loads: the recording reader directly, and the recording reader behind openapi3.URIMapCache (the cache layer of
+	// DefaultReadFromURI): the second log is what reaches the wrapped reader
+	load := func(cached bool) ([]string, error) {
+		log := []string{}
+		loader := openapi3.NewLoader()
+		loader.IsExternalRefsAllowed = jbool(g, "allowed")
+		rec := func(_ *openapi3.Loader, u *url.URL) ([]byte, error) {
+			k := c11Key(u)
+			log = append(log, k)
+			if b, ok := bodies[k]; ok {
+				return b, nil
+			}
+			return nil, fmt.Errorf("no such file %s", k)
 		}
-		return nil, fmt.Errorf("no such file %s", k)
-	}
-	var err error
-	_, ru := c11UrlJSON(jstr(g, "root"))
-	switch jstr(g, "entry") {
-	case "file":
-		if ru != nil && ru.Scheme == "" && ru.Host == "" {
-			_, err = loader.LoadFromFile(ru.Path)
-		} else {
-			_, err = loader.LoadFromURI(ru)
+		loader.ReadFromURIFunc = rec
+		if cached {
+			loader.ReadFromURIFunc = openapi3.URIMapCache(rec)
 		}
-	case "dataWithPath":
-		_, err = loader.LoadFromDataWithPath(rootBody, ru)
-	default:
-		_, err = loader.LoadFromData(rootBody)
+		var err error
+		_, ru := c11UrlJSON(jstr(g, "root"))
+		switch jstr(g, "entry") {
+		case "file":
+			if ru != nil && ru.Scheme == "" && ru.Host == "" {
+				_, err = loader.LoadFromFile(ru.Path)
+			} else {
+				_, err = loader.LoadFromURI(ru)
+			}
+		case "dataWithPath":
+			_, err = loader.LoadFromDataWithPath(rootBody, ru)
+		default:
+			_, err = loader.LoadFromData(rootBody)
+		}
+		return log, err
 	}
+	log, err := load(false)
+	clog, cerr := load(true)
 	es := ""
 	if err != nil {
 		es = err.Error()
@@ -609,7 +620,7 @@ func runC11(c hx.Case) any {
 			es = es[:160]
 		}
 	}
-	return map[string]any{"log": log, "ok": err == nil, "err": es}
+	return map[string]any{"log": log, "ok": err == nil, "err": es, "cacheLog": clog, "cacheOk": cerr == nil}
 }
 
 // c11SpecHolds: the property on an observed read sequence, from the spec data computed by the Lean driver.
@@ -685,6 +696,15 @@ func cmpC11(c hx.Case, impl any, reply map[string]any) hx.Verdict {
 			fmt.Fprintf(os.Stderr, "MISMATCH impl %v ok=%v (%s)\n  model %v ok=%v\n  g=%s\n", ilog, jbool(im, "ok"), jstr(im, "err"), mlog, jbool(model, "ok"), b)
 		}
 		v.Detail = fmt.Sprintf("reads: impl %v ok=%v (%s) vs model %v ok=%v", ilog, jbool(im, "ok"), jstr(im, "err"), mlog, jbool(model, "ok"))
+	}
+	iclog, mclog := toStrs(im["cacheLog"]), toStrs(model["cacheLog"])
+	if v.IM && (!sameStrs(iclog, mclog, true) || jbool(im, "cacheOk") != jbool(model, "ok")) {
+		v.IM = false
+		v.Detail = fmt.Sprintf("reads behind URIMapCache: impl %v ok=%v vs model %v ok=%v", iclog, jbool(im, "cacheOk"), mclog, jbool(model, "ok"))
+	}
+	if ok, why := c11SpecHolds(iclog, spec); !ok {
+		v.IS = false
+		v.Detail = "behind URIMapCache: " + why + fmt.Sprintf(" (reads %v)", iclog)
 	}
 	if ok, why := c11SpecHolds(ilog, spec); !ok {
 		v.IS = false
@@ -1292,6 +1312,7 @@ func genC11(ctx *hx.Ctx, emit func(hx.Case)) {
 	}
 	c11GenChains(ctx, emit)
 	c11GenRootChains(ctx, emit)
+	c11GenRereads(ctx, emit)
 	c11GenOtherKind(ctx, emit)
 	// random stream
 	n := 2500
@@ -1371,6 +1392,36 @@ func c11GenRootChains(ctx *hx.Ctx, emit func(hx.Case)) {
 				}
 				g := map[string]any{"allowed": allowed, "entry": entry, "root": "/r/a/root.json", "rootInStore": true, "files": c11DedupFiles(files)}
 				emit(c11Derive(hx.Case{"g": g}))
+			}
+		}
+	}
+}
+
+// c11GenRereads: targets only the raw re-read of componentPath reaches (below a callback; "definitions" of an element file)
+func c11GenRereads(ctx *hx.Ctx, emit func(hx.Case)) {
+	for _, sp := range []c11Spelling{{"", "/r/a/", true}, {"../b/", "/r/b/", true}, {"http://h.example/r/a/", "http://h.example/r/a/", true}, {"#", "", true}} {
+		for _, entry := range []string{"file", "dataWithPath", "data"} {
+			for _, allowed := range []bool{false, true} {
+				cb := c11With(c11NewEl("callback", ""), kid(c11With(c11NewEl("pathItem", ""), kid(c11NewEl("parameter", "p.json"), "parameters", "0")), "evt"))
+				var files []any
+				if sp.dir == "#" {
+					files = []any{c11Doc("/r/a/root.json", kid(c11NewEl("pathItem", "#/components/callbacks/C/evt"), "paths", "/x"), kid(cb, "components", "callbacks", "C")),
+						c11Elem("/r/a/p.json", "parameter"), c11Elem("p.json", "parameter")}
+				} else {
+					files = []any{c11Doc("/r/a/root.json", kid(c11NewEl("pathItem", sp.dir+"d.json#/components/callbacks/C/evt"), "paths", "/x")),
+						c11Doc(sp.target+"d.json", kid(cb, "components", "callbacks", "C")), c11Elem(sp.target+"p.json", "parameter"), c11Elem("/r/a/p.json", "parameter")}
+				}
+				g := map[string]any{"allowed": allowed, "entry": entry, "root": "/r/a/root.json", "rootInStore": true, "files": c11DedupFiles(files)}
+				emit(c11Derive(hx.Case{"g": g}))
+				// an element file whose sub-element refers to the file's own "definitions"
+				sf := c11Elem(sp.target+"s.json", "schema", kid(c11NewEl("schema", "#/definitions/D"), "items"))
+				sf["defs"] = map[string]any{"D": c11With(c11NewEl("schema", ""), kid(c11NewEl("schema", "t.json"), "items"))}
+				if sp.dir != "#" {
+					files = []any{c11Doc("/r/a/root.json", kid(c11NewEl("schema", sp.dir+"s.json"), "components", "schemas", "S")), sf,
+						c11Elem(sp.target+"t.json", "schema"), c11Elem("/r/a/t.json", "schema")}
+					g := map[string]any{"allowed": allowed, "entry": entry, "root": "/r/a/root.json", "rootInStore": true, "files": c11DedupFiles(files)}
+					emit(c11Derive(hx.Case{"g": g}))
+				}
 			}
 		}
 	}
